@@ -390,44 +390,87 @@ func (a Float) M__round__(digitsObj Object) (Object, error) {
 
 // Rich comparison
 
+// floatCompare compares a with other exactly (an int operand is never
+// rounded to a float first).
+//
+// cmp is -1, 0 or +1; ordered is false if a NaN is involved, in which
+// case every comparison except != is false.  ok is false if other is
+// not a number that floats compare with.
+func floatCompare(a Float, other Object) (cmp int, ordered bool, ok bool) {
+	var i *big.Int
+	switch b := other.(type) {
+	case Float:
+		switch {
+		case a < b:
+			return -1, true, true
+		case a > b:
+			return 1, true, true
+		case a == b:
+			return 0, true, true
+		}
+		return 0, false, true
+	case Int:
+		i = big.NewInt(int64(b))
+	case *BigInt:
+		i = (*big.Int)(b)
+	case Bool:
+		i = big.NewInt(0)
+		if b {
+			i.SetInt64(1)
+		}
+	default:
+		return 0, false, false
+	}
+	switch f := float64(a); {
+	case math.IsNaN(f):
+		return 0, false, true
+	case math.IsInf(f, 1):
+		return 1, true, true
+	case math.IsInf(f, -1):
+		return -1, true, true
+	}
+	// Both conversions to big.Float are exact
+	return new(big.Float).SetFloat64(float64(a)).Cmp(new(big.Float).SetInt(i)), true, true
+}
+
 func (a Float) M__lt__(other Object) (Object, error) {
-	if b, ok := convertToFloat(other); ok {
-		return NewBool(a < b), nil
+	if cmp, ordered, ok := floatCompare(a, other); ok {
+		return NewBool(ordered && cmp < 0), nil
 	}
 	return NotImplemented, nil
 }
 
 func (a Float) M__le__(other Object) (Object, error) {
-	if b, ok := convertToFloat(other); ok {
-		return NewBool(a <= b), nil
+	if cmp, ordered, ok := floatCompare(a, other); ok {
+		return NewBool(ordered && cmp <= 0), nil
 	}
 	return NotImplemented, nil
 }
 
 func (a Float) M__eq__(other Object) (Object, error) {
-	if b, ok := convertToFloat(other); ok {
-		return NewBool(a == b), nil
+	if cmp, ordered, ok := floatCompare(a, other); ok {
+		return NewBool(ordered && cmp == 0), nil
 	}
 	return NotImplemented, nil
 }
 
 func (a Float) M__ne__(other Object) (Object, error) {
-	if b, ok := convertToFloat(other); ok {
-		return NewBool(a != b), nil
+	if cmp, ordered, ok := floatCompare(a, other); ok {
+		return NewBool(!ordered || cmp != 0), nil
 	}
 	return NotImplemented, nil
 }
 
 func (a Float) M__gt__(other Object) (Object, error) {
-	if b, ok := convertToFloat(other); ok {
-		return NewBool(a > b), nil
+	if cmp, ordered, ok := floatCompare(a, other); ok {
+		return NewBool(ordered && cmp > 0), nil
 	}
 	return NotImplemented, nil
 }
 
 func (a Float) M__ge__(other Object) (Object, error) {
-	if b, ok := convertToFloat(other); ok {
-		return NewBool(a >= b), nil
+	if cmp, ordered, ok := floatCompare(a, other); ok {
+		return NewBool(ordered && cmp >= 0), nil
 	}
 	return NotImplemented, nil
 }
